@@ -181,6 +181,11 @@ func newRig(t vt.TB, c config) *rigT {
 		if o == "slow" {
 			slow, o = true, "2xx"
 		}
+		cut := false
+		if o == "2xx-cut" {
+			// the upstream took the body and answered 2xx, but the response body breaks off: acknowledged all the same
+			cut, o = true, "2xx"
+		}
 		hdr := map[string]string{}
 		for _, h := range []string{"Region", "Service"} {
 			if v := a.Header.Get(h); v != "" {
@@ -200,6 +205,9 @@ func newRig(t vt.TB, c config) *rigT {
 			return fakes.Reply{Status: 400}
 		case "neterr":
 			return fakes.Reply{Err: fakes.ErrTransport}
+		}
+		if cut {
+			return fakes.Reply{Status: 202, Body: []byte("partial"), BodyErr: true}
 		}
 		return fakes.Reply{Status: 202}
 	}
@@ -375,6 +383,7 @@ func runForwarder(t *testing.T, faults bool) {
 		// per-body scripts: body index -> outcomes per attempt
 		scripts := map[int][]string{}
 		alwaysFail := map[int]bool{}
+		aged := false
 		if faults {
 			c.retries = rapid.Bool().Draw(t, "retries-enabled")
 			nb := rapid.IntRange(1, 3).Draw(t, "scripted-bodies")
@@ -383,7 +392,7 @@ func runForwarder(t *testing.T, faults bool) {
 				k := rapid.IntRange(1, 2).Draw(t, "failures")
 				var s []string
 				for j := 0; j < k; j++ {
-					s = append(s, rapid.SampledFrom([]string{"503", "400", "neterr"}).Draw(t, "outcome"))
+					s = append(s, rapid.SampledFrom([]string{"503", "400", "neterr", "2xx-cut"}).Draw(t, "outcome"))
 				}
 				scripts[idx] = s
 			}
@@ -392,6 +401,12 @@ func runForwarder(t *testing.T, faults bool) {
 			}
 		}
 		r := newRig(t, c)
+		if faults && c.retries && len(scripts) > 0 && rapid.IntRange(0, 11).Draw(t, "aged-forwarder") == 11 {
+			// the forwarder has been running for longer than one retry window (2 s) before anything fails: a body's window
+			// starts with its own first attempt, not with the forwarder
+			time.Sleep(2200 * time.Millisecond)
+			aged = true
+		}
 		r.script = func(idx, attempt int) string {
 			if s, ok := scripts[idx]; ok && attempt < len(s) {
 				return s[attempt]
@@ -511,6 +526,9 @@ func runForwarder(t *testing.T, faults bool) {
 		}
 		if faults {
 			labels = append(labels, "faults")
+		}
+		if aged {
+			labels = append(labels, "forwarder-older-than-retry-window")
 		}
 		if overlapped {
 			labels = append(labels, "dispatch-overlaps-flush")
